@@ -252,3 +252,57 @@ def getPage (d : Dump) (as : AS) (addr : Nat) : Except Err Nat :=
     if off < 2^63 then .ok off else .error .overflow
 
 end Kdf.Model.Xen
+
+/-! ## Histories: the translation system is set up lazily and again after every option change
+
+`vtop_init` (`vtop.c`) runs when the translation is flagged dirty (`revalidate_xlat`):
+it clears the flag, calls `addrxlat_sys_os_init` — which first wipes every map and
+method of the (same) translation system object (`sys_cleanup`) — then the
+architecture's and the format's `post_addrxlat` hooks; `xc_post_addrxlat`
+(`elfdump.c`) installs the custom P2M/M2P methods into the KPHYS↔MACHPHYS slots of a
+non-auto-translated dump.  Setting or clearing a translation option
+(`addrxlat.default.*`, `addrxlat.force.*`, `addrxlat.ostype`, …) only raises the flag.
+Whether `addrxlat_sys_os_init` succeeds with the options at hand is a parameter
+(`OsInit`); a set-up that fails leaves the flag raised, so that it is tried — and
+reported — again. -/
+namespace Kdf.Model.Xen
+
+structure Xlat where
+  /-- `ctx->xlat->dirty` -/
+  dirty : Bool := true
+  /-- the KPHYS→MACHPHYS and MACHPHYS→KPHYS slots hold the xc_core methods -/
+  xc : Bool := false
+  deriving DecidableEq, Repr, Inhabited
+
+/-- outcome of `addrxlat_sys_os_init` with the current options -/
+inductive OsInit
+  | ok            -- set up (after the wipe)
+  | failWiped     -- fails after `sys_cleanup`
+  | failEarly     -- fails before touching the system (e.g. unknown architecture)
+  deriving DecidableEq, Repr, Inhabited
+
+/-- `dirty_xlat_hook` -/
+def setOpt (x : Xlat) : Xlat := { x with dirty := true }
+
+/-- `xc_post_addrxlat` -/
+def xcPost (d : Dump) (x : Xlat) : Xlat := if d.nonauto then { x with xc := true } else x
+
+/-- `vtop_init`; the result says whether the set-up succeeded -/
+def vtopInit (d : Dump) (o : OsInit) (x : Xlat) : Bool × Xlat :=
+  match o with
+  | .ok => (true, xcPost d { dirty := false, xc := false })
+  | .failWiped => (false, { dirty := true, xc := false })
+  | .failEarly => (false, { x with dirty := true })
+
+/-- `revalidate_xlat` (`kdump_get_addrxlat`, a read that needs translation) -/
+def revalidate (d : Dump) (o : OsInit) (x : Xlat) : Bool × Xlat :=
+  if x.dirty then vtopInit d o x else (true, x)
+
+/-- `addrxlat_fulladdr_conv` KPHYS→MACHPHYS on the system as it is (no revalidation);
+`none`: the slots hold whatever the architecture set up, not a function of the page list -/
+def convP2m (d : Dump) (x : Xlat) (addr : Nat) : Option (Except Err Nat) :=
+  if x.xc then some (p2m d addr) else none
+def convM2p (d : Dump) (x : Xlat) (addr : Nat) : Option (Except Err Nat) :=
+  if x.xc then some (m2p d addr) else none
+
+end Kdf.Model.Xen
